@@ -47,6 +47,7 @@ type Contract struct {
 	Keeps    []Clause // join invariants: asserted and assumed at every control-flow join and loop head
 	Modifies []Clause // location expressions
 	ModAll   bool     // `modifies *` (no frame check, callers havoc nothing extra: only for trusted externs)
+	ModStatic bool    // `modifies @writes`: the statically computed set of heap variables the body may write (whole variables)
 	Loops    map[int]*LoopSpec
 	Asserts  []CallAssert
 	BV       bool
@@ -475,6 +476,10 @@ func (prog *Program) LoadContracts(file string, pkg *types.Package, extern bool)
 				case "modifies":
 					if rest == "*" {
 						c.ModAll = true
+						break
+					}
+					if rest == "@writes" {
+						c.ModStatic = true
 						break
 					}
 					for _, part := range splitTopLevel(rest) {
